@@ -259,7 +259,12 @@ def rule_alias(run):
     c03.rule_alias(run)   # views of a locally constructed signal are redirected to the alias as well (keyed by root)
 
 
-RULES = [rule_cache, rule_own_cache, rule_lattice, rule_value_views, rule_views, rule_array_elements, rule_alias]
+def rule_span_width(run):
+    from . import c05
+    c05.rule_backend_sites(run)     # a vector constructed over a span of storage has exactly that many bits (slice views cannot reach beyond the vector)
+
+
+RULES = [rule_cache, rule_own_cache, rule_lattice, rule_value_views, rule_views, rule_array_elements, rule_alias, rule_span_width]
 LEVEL = "other"
 EXPLANATION = (
     "Canonicity and the subtype lattice are decided from the three metaclass __getitem__ functions for all parameters "
